@@ -4,13 +4,17 @@
    Reload() (drop the object, load the file).  A new clock starts at 1. *)
 EXTENDS Integers, Sequences
 
+(* incfail / witfail: the same calls while the file cannot be replaced (disk full, say): the call must report the failure -
+   a value that is not on disk is not handed out as if it were (err); the object in memory has moved on, the file has not *)
 Step(k, op) ==
-  CASE op.op = "inc"     -> [mem |-> k.mem + 1, disk |-> k.mem + 1, ret |-> k.mem + 1]
-    [] op.op = "witness" -> LET m == IF op.v > k.mem THEN op.v ELSE k.mem IN [mem |-> m, disk |-> m, ret |-> 0]
-    [] op.op = "reload"  -> [mem |-> k.disk, disk |-> k.disk, ret |-> 0]
+  CASE op.op = "inc"     -> [mem |-> k.mem + 1, disk |-> k.mem + 1, ret |-> k.mem + 1, err |-> FALSE]
+    [] op.op = "witness" -> LET m == IF op.v > k.mem THEN op.v ELSE k.mem IN [mem |-> m, disk |-> m, ret |-> 0, err |-> FALSE]
+    [] op.op = "reload"  -> [mem |-> k.disk, disk |-> k.disk, ret |-> 0, err |-> FALSE]
+    [] op.op = "incfail" -> [mem |-> k.mem + 1, disk |-> k.disk, ret |-> 0, err |-> TRUE]
+    [] op.op = "witfail" -> LET m == IF op.v > k.mem THEN op.v ELSE k.mem IN [mem |-> m, disk |-> k.disk, ret |-> 0, err |-> TRUE]
 
 RECURSIVE Run(_, _)
 Run(k, ops) == IF ops = <<>> THEN <<>> ELSE LET k1 == Step(k, Head(ops)) IN <<k1>> \o Run(k1, Tail(ops))
 
-Start == [mem |-> 1, disk |-> 1, ret |-> 0]
+Start == [mem |-> 1, disk |-> 1, ret |-> 0, err |-> FALSE]
 =============================================================================
